@@ -47,7 +47,10 @@
      parse_section_pin        SectionParse.parse_section (parse_body) on Sections.body_lines
                                                                     = the whole of reader.parse_header_items_section (with the
                                                                       translated SectionParser.__init__ / __call__, read_line)
-                              (FuncsPinInspect, FuncsPinEngine, FuncsPinParseSection; import DataRead / Sections: not re-exported here)
+     version_section_pin, well_section_pin, curves_section_pin, params_section_pin
+                              Writer.title_line + Writer.section_lines over Writer.standardize-d items
+                                                                    = the block of writer.write that emits each header section
+                              (FuncsPinInspect, FuncsPinEngine, FuncsPinParseSection, FuncsPinWriteHeader: not re-exported here)
 
    One file per pinned function or group (FuncsPinConfigure, FuncsPinSectionType, FuncsPinRoute,
    FuncsPinSectionParse, FuncsPinItems, FuncsPinStandardize, FuncsPinWriter, FuncsPinNum, FuncsPinParser, FuncsPinParserInit,
